@@ -27,11 +27,11 @@ import (
 // oracle asserts every bound and the pin bound, and that the version is the maximum for one
 // of the admissible pin states; for every other key the exact value.
 type txnPlan struct {
-	Table map[int16]rng    `json:"table"` // only the keys that matter are generated tight
-	TxnV  int16            `json:"transaction_version"`
-	UMax  map[int16]int16  `json:"user_max,omitempty"` // nil: MaxVersions(nil)
-	Txns  int              `json:"txns"`
-	Recs  int              `json:"recs"`
+	Table map[int16]rng   `json:"table"` // only the keys that matter are generated tight
+	TxnV  int16           `json:"transaction_version"`
+	UMax  map[int16]int16 `json:"user_max,omitempty"` // nil: MaxVersions(nil)
+	Txns  int             `json:"txns"`
+	Recs  int             `json:"recs"`
 }
 
 var txnKeys = []int16{0, 3, 10, 22, 24, 26}
